@@ -38,7 +38,8 @@ package transaction
 //@   loop 1 invariant quietSoFar() && (proposalCreates > old(proposalCreates) ==> !lastCreateExisted) && proposalCreates >= old(proposalCreates)
 //@   loop 2 invariant quietSoFar() && (proposalCreates > old(proposalCreates) ==> !lastCreateExisted) && proposalCreates >= old(proposalCreates)
 //@   loop 3 invariant quietSoFar() && (proposalCreates > old(proposalCreates) ==> !lastCreateExisted) && proposalCreates >= old(proposalCreates)
-//@   loop 4 invariant 0 - 1 <= rangeindex && (allInitialized ==> seenUpTo(transaction, seenInitialized, rangeindex)) && quietSoFar() && proposalCreates == old(proposalCreates)
+//@   loop 4 invariant 0 - 1 <= rangeindex && quietSoFar() && proposalCreates == old(proposalCreates)
+//@   loop 4 invariant allInitialized ==> seenUpTo(transaction, seenInitialized, rangeindex)
 //@   loop 5 invariant quietSoFar() && proposalCreates == old(proposalCreates)
 
 //@ func (*Reconciler).reconcileValidate
